@@ -688,6 +688,8 @@ class Verifier:
         # the earlier ones on that path) must be satisfiable, else everything "proved" there is void
         last = {}
         for vc in cr.vcs:
+            if z3.is_false(z3.simplify(vc.goal)):
+                continue        # `ensure(False)` on a branch: proving it IS proving the branch infeasible
             last[vc.path_id] = vc
         for pid_, vc in last.items():
             if vc.status != "proved":
